@@ -465,7 +465,7 @@ def run(ck):
         words = sorted((x["w"] for x in cases if x["k"] == "word"), key=lambda w: (len(w), w))
         ck.exhaustive = True
         scs = pack(values, modes, ck.pick(64, 60), "export", r_)
-        scs += random_scenarios(r_, ck.pick(6, 300), modes)
+        scs += random_scenarios(r_, ck.pick(12, 900), modes)
         if not ck.quick:  # payloads larger than the pipe buffer
             big = "".join(r_.choice(["q", " ", "'", "\\", "é", "\n", '"', "$"]) for _ in range(70000))
             for mode in modes:
